@@ -132,8 +132,13 @@ def dirs_w(dirs):
     return wlist(dirs, lambda d: "1" if d else "0")
 
 
+BIG = [2 ** 53, 2 ** 53 + 1, float(2 ** 53), 2 ** 53 - 1, -(2 ** 53) - 1, -float(2 ** 53), 2 ** 60 + 1, float(2 ** 60), 10 ** 17 + 1, 1e17, 3, -2, 0]
+
+
 def rand_value(rng, grid=None, special=0.15):
     r = rng.random()
+    if r < 0.04 and special > 0:
+        return rng.choice(BIG)          # exact Python ints next to the doubles they round to (objectives need not be floats)
     if grid is not None and r > special:
         return float(rng.choice(grid))
     if r < special:
